@@ -1,6 +1,6 @@
 (** C01 -- Virtual time is monotone and every timed wait resumes at exactly its date.
     Only statements closed by [exact]; see theories/KernelProps.v, MachineProps.v, ScenarioProps.v. *)
-From Coq Require Import ZArith List Sorted.
+From Coq Require Import ZArith List Sorted Bool.
 From Usim Require Import XTime Kernel KernelProps Machine MachineProps Scenario ScenarioProps.
 Import ListNotations.
 
@@ -55,3 +55,42 @@ Print Assumptions C01_scenarios_exact_due.
 (** the hypotheses are satisfiable: the initial loop of any run satisfies the invariant *)
 Example C01_inv_init : inv (loop_init 3 (Fin 5)).
 Proof. exact (loop_init_inv 3 (Fin 5)). Qed.
+
+(** ** machine level: the suspension primitives, for an arbitrary state, activity and continuation *)
+From Usim Require Import Lib WaitSpecs.
+
+(** [suspend(delay=d)] (used by `await (time + d)` through Delay.__subscribe__, by interval/delay and by
+    task start delays) requests exactly one wake-up of the running activity, due [d] after now, and
+    hibernates ... *)
+Theorem C01_delay_requests_one_wakeup :
+  forall k a m st d,
+    xpos d && xltb (onow (ob m)) (xadd (onow (ob m)) d) = true ->
+    exec (12 + k) a m (MRun (suspend_delay d)) {| c_aid := a; c_stack := st |} []
+    = asleep m a [KAfter d a (Some (length (sigs (ob m))))] st.
+Proof. exact suspend_delay_sleeps. Qed.
+Print Assumptions C01_delay_requests_one_wakeup.
+
+(** ... the requested activation is due at exactly now + d (and by C01_exact_due_time executes exactly then,
+    unless revoked) ... *)
+Theorem C01_delay_wakeup_due :
+  forall l d t s b,
+    xpos d && xltb (now l) (xadd (now l) d) = true ->
+    In b (queued (kapply l (KAfter d t s))) ->
+    In b (queued l) \/ (a_tgt b = t /\ a_sig b = s /\ a_due b = xadd (now l) d /\ a_seq b = nseq l).
+Proof. exact kafter_due. Qed.
+Print Assumptions C01_delay_wakeup_due.
+
+(** ... and the sleeper continues normally exactly when resumed by that wake-up; any other exception thrown
+    into it (cancel, until-interrupt, GeneratorExit) propagates; both paths revoke the wake-up *)
+Theorem C01_sleeper_resumes_by_own_wakeup :
+  forall k a m w st outer,
+    exec (9 + k) a m (MThrow (ESig w)) {| c_aid := a; c_stack := sleep_frames w ++ st |} outer
+    = exec k a (issue m [KRevoke w]) (MRet VU) {| c_aid := a; c_stack := st |} outer.
+Proof. exact wake_own. Qed.
+Theorem C01_sleeper_left_by_foreign_signal :
+  forall k a m w e st outer,
+    is_sig e w = false ->
+    exec (9 + k) a m (MThrow e) {| c_aid := a; c_stack := sleep_frames w ++ st |} outer
+    = exec k a (issue m [KRevoke w]) (MThrow e) {| c_aid := a; c_stack := st |} outer.
+Proof. exact wake_foreign. Qed.
+Print Assumptions C01_sleeper_left_by_foreign_signal.
